@@ -19,6 +19,11 @@ ATTR = cfg(InitTree="T2", Names={"a", "b"}, Fids={1}, AttachNames={""}, MaxWalk=
            Ops={"Attach", "Walk", "Stat", "Clunk", "Open", "Truncate", "Chmod", "Mtime", "Write"},
            Perms={384}, Modes={0, 1, 3, 17}, Lens={0, 3}, Mtimes={2}, MaxIds=10)
 ATTR_Q = dict(ATTR, Names={"b"}, MaxWalk=1, Modes={0, 1, 17}, Lens={0, 3})
+# one Twstat setting several of {name, length, mode, mtime}: every combination, on files and directories,
+# rename to free and occupied names (ufs.go: chmod, rename, truncate, times on the path the fid then has)
+WSTAT = cfg(InitTree="T2", Names={"a", "b"}, Fids={1}, AttachNames={""}, RenameNames={"b", "c", "/c"}, MaxWalk=2,
+            Ops={"Attach", "Walk", "Clunk", "Wstat"}, Perms={384}, Lens={0, 3}, Mtimes={2}, MaxIds=10)
+WSTAT_Q = dict(WSTAT, Names={"b", "c"}, RenameNames={"a", "c", "/b"}, MaxWalk=1)
 # everything together, larger alphabet: simulation only
 FULL = cfg(InitTree="T2", Names={"a", "b", "c"}, AttachNames={"", "a"}, RenameNames={"a", "b", "c", "/b", "/a/c"}, MaxWalk=2,
            Ops=set(ALL_OPS), Perms={420, 511, 0}, Modes={0, 1, 2, 3, 16, 17, 18}, Lens={0, 1, 3}, Mtimes={2, 3},
@@ -35,8 +40,9 @@ def run(ctx):
         b1 = fam.simulate("c17struct-sim", STRUCT, num=150, depth=25)
         fam.replay("c17struct", b1, STRUCT, dotu=True)
         fam.exhaustive("c17attr", ATTR_Q)
-        b2 = fam.simulate("c17attr-sim", ATTR, num=100, depth=25)
-        fam.replay("c17attr", b2, ATTR, dotu=True)
+        bw = fam.tour("c17wstat", WSTAT_Q, sample_edges=1200)
+        fam.replay("c17wstat", bw, WSTAT_Q, dotu=True)
+        fam.replay("c17wstat", bw, WSTAT_Q, dotu=False, max_cases=80)
         b3 = fam.simulate("c17full", FULL, num=150, depth=30)
         fam.replay("c17full", b3, FULL, dotu=True)
         # 9P2000: special files are refused, so the enabled behaviours differ: generated separately
@@ -49,6 +55,12 @@ def run(ctx):
         b2 = fam.tour("c17attr", ATTR_Q, sample_edges=25000)
         fam.replay("c17attr", b2, ATTR_Q, dotu=True)
         fam.exhaustive("c17attr-all", ATTR)
+        bq = fam.tour("c17wstat-small", WSTAT_Q)                 # every transition
+        fam.replay("c17wstat-small", bq, WSTAT_Q, dotu=True)
+        fam.replay("c17wstat-small", bq, WSTAT_Q, dotu=False)
+        fam.exhaustive("c17wstat", WSTAT)                         # 77k states: checked, then sampled by simulation
+        bw = fam.simulate("c17wstat-sim", WSTAT, num=1500, depth=25)
+        fam.replay("c17wstat", bw, WSTAT, dotu=True)
         b3 = fam.simulate("c17full", FULL, num=2500, depth=30)
         fam.replay("c17full", b3, FULL, dotu=True)
         b4 = fam.simulate("c17full-9p2000", dict(FULL, Dotu=False), num=600, depth=30)
